@@ -151,7 +151,9 @@ def handle (j : Json) : Except String Json := do
         let m := ci * h * w
         ([ci], m, if m ≤ nestLimit then some (macGlobalAvgPool h w ci) else none)
       | "dense" =>
-        ([co], co * ci, if co * ci ≤ nestLimit then some (macDense ci co) else none)
+        -- `h` carries the number of positions of the leading axes (1 for `(batch, n_in)`)
+        let m := h * (co * ci)
+        ([co], m, if m ≤ nestLimit then some (macDenseAt [h] ci co) else none)
       | "sepconv2d" =>
         let m := ph * pw * ci * dm * kh * kw + ph * pw * co * (ci * dm)
         ([convOutLen p h kh sh dh, convOutLen p w kw sw dw, co], m,
